@@ -39,7 +39,8 @@ GenInit == tree \in {t \in Trees(Depth) : WellFormed(t)} /\ target \in Targets /
 GenNone == FALSE /\ UNCHANGED <<tree, target, view>>
 
 (* which packages a tree mentions: exactly those - minus the target - must be imported *)
-PkgOfLeaf(id) == CASE id \in {"fixt.A", "fixt.AI", "fixt.Gen[int]", "fixt.Gen[fixt.A]"} -> {"fixt"}
+PkgOfLeaf(id) == CASE id \in {"fixt.A", "fixt.AI", "fixt.Gen[int]", "fixt.Gen[fixt.A]", "fixt.PA"} -> {"fixt"}       \* fixt.PA: a named POINTER type (type PA *A)
+                   [] id = "fixt.Gen[stdtime.Duration]" -> {"fixt", "stdtime"}     \* the argument comes from a package whose import path has one element (time)
                    [] id = "subjson.J" -> {"subjson"}                 \* a package of the module that is called json
                    [] id = "stdjson.RawMessage" -> {"stdjson"}        \* encoding/json
                    [] id = "fixt.Gen[dotted.D]" -> {"fixt", "dotted"} \* the argument's package path ends in dotted.v3
